@@ -39,6 +39,21 @@ class Ctx:
         tok, tproblems = tables.regenerate()
         tproblems = tables.problems_for(props_file, tproblems)     # a table that this property's theorems do not mention is not its concern
         if tproblems:
+            # the source no longer has the shape the translator reads (possibly a harmless rewrite): the reviewed copy of the table
+            # is in place; if the compiled code behaves exactly as that copy says, the tie holds by exhaustive correspondence instead
+            confirmed = []
+            for pr_ in list(tproblems):
+                g = pr_.split(':', 1)[0]
+                try:
+                    okb, detail = tables.behavioural_check(g, os.path.join(self.wd, 'tables_' + g))
+                except Exception as e:
+                    okb, detail = False, 'behavioural check failed to run: %s' % str(e)[:200]
+                if okb:
+                    confirmed.append('%s [translator: %s]' % (detail, pr_))
+                    tproblems.remove(pr_)
+            if confirmed:
+                self.notes['tables_confirmed_behaviourally'] = confirmed
+        if tproblems:
             self.notes['translator_problems'] = tproblems
             src0 = open(os.path.join(COQDIR, rel)).read()
             th0 = re.findall(r'^\s*(?:Theorem|Lemma|Corollary)\s+([A-Za-z0-9_\']+)', src0, re.M)
